@@ -132,7 +132,7 @@ def c19(prop, tier, verdict):
                              nontrivial=lambda s: s['reqmeta'] != 'none' or s['replymeta'] != 'none' or s['failure'] != 'none' or s['method'] != 'echo')
     return 'exploration', cov, ['three real peers (caller, proxy with the shipped plugin, backend) over in-memory connections, plus the same caller connected directly to the backend as the reference',
                                 'request space of spec/Proxy.tla: kind x method (served / failing / missing at the backend) x codec json/protobuf x request metadata classes x reply metadata classes x body classes x backend failure (down before, cut during)',
-                                'metamorphic oracle: proxied outcome = direct outcome; all 264 cases executed in both tiers']
+                                'metamorphic oracle: proxied outcome = direct outcome; every case executed in both tiers']
 
 def c15(prop, tier, verdict):
     def cl(line, s):
